@@ -112,10 +112,6 @@ def step_term(s):
         evs = clist(s.get("bev") or [], lambda e: "(%d, %s, %s, %d, %d, %s)" % (e["n"], clist(e["d"] or []), clist(e["t"] or []), e["i"], e["h"], cbool(e["txok"])))
         return "(SCBlock %d %d%%nat %d%%nat %s %s %s)" % (s["h"], s.get("nb", 0), s.get("na", 0),
                                                          clist(list(enumerate(s.get("cands") or [])), lambda ks: ctx_term(ks[0], ks[1])), evs, tail)
-    if s["t"] == "cblock":
-        evs = clist(s.get("bev") or [], lambda e: "(%d, %s, %s, %d, %d, %s)" % (e["n"], clist(e["d"] or []), clist(e["t"] or []), e["i"], e["h"], cbool(e["txok"])))
-        return "(SCBlock %d %d%%nat %d%%nat %s %s %s)" % (s["h"], s.get("nb", 0), s.get("na", 0),
-                                                         clist(list(enumerate(s.get("cands") or [])), lambda ks: ctx_term(ks[0], ks[1])), evs, tail)
     if s["t"] == "gen":
         return "(SGen %d %s %s %s %s)" % (s["h"], clist(s.get("txs") or [], tx_term), clist(s.get("txs2") or [], tx_term),
                                           cbool(s.get("selok", False)), tail)
